@@ -5,7 +5,8 @@ from harness.core import cbool, clist, cnat, copt, cq
 
 ID = "C06"
 MODEL_TARGETS = ["C06/Cases.vo"]
-PROOF_TARGETS = ["C06/Gen.vo", "C06/Bridge.vo", "C06/Proofs.vo", "C06/Refuted.vo"]
+PROOF_TARGETS = ["C06/Gen.vo", "C06/GenWrap.vo", "C06/Bridge.vo", "C06/Proofs.vo",
+                 "C06/Refuted.vo"]
 OBLIGATION_FILES = ["C06/Bridge.v", "C06/Refuted.v"]
 PROPS_FILE = "C06/Props.v"
 SHARD = 120
@@ -20,21 +21,34 @@ RULE = ("all 18 metric functions x option combinations (symmetric, square_root, 
         "constructor options. non-trivial = accepted call with horizon >= 2 and not all errors zero; "
         "distinct = distinct canonical JSON case")
 TRUSTED = [
-    "modelled, not verified: numpy np.average / np.mean / np.median / np.where / np.maximum / "
-    "np.minimum / np.abs / np.square, scipy gmean, sklearn 1.7 mean_absolute_error / "
-    "mean_squared_error / root_mean_squared_error / median_absolute_error and "
-    "_weighted_percentile (algorithm transcribed from the installed source), _check_reg_targets as "
-    "a reshaper to (horizon, outputs)",
+    "translator/metricq.py (Python ast -> Gallina, fail-closed): the three private helpers "
+    "expression by expression, the structure of the 18 public functions, their option defaults, "
+    "and the wrapper facts of the 18 classes; its reading of numpy calls is the modelled "
+    "semantics below. Validated on every run: Bridge.v proves the regenerated definitions equal to "
+    "the model that the implementation is compared with",
+    "modelled, not verified: numpy element-wise arithmetic / np.where / np.maximum / np.minimum / "
+    "np.abs / np.square as the scalar operation per horizon step, np.average / np.mean / np.median, "
+    "scipy gmean, sklearn 1.7 mean_absolute_error / mean_squared_error / root_mean_squared_error / "
+    "median_absolute_error and _weighted_percentile (algorithm transcribed from the installed "
+    "source), _check_reg_targets as a reshaper to (horizon, outputs). numpy BROADCASTING is not "
+    "modelled by the translator (F-C06-6 lives there and was found by the correspondence run)",
     "float64 rounding is outside the model: equalities are compared in Q with relative tolerance "
-    "1e-9; square roots / geometric means are checked through their defining equation "
-    "root^deg ~ pre-root quantity (the implementation's raw_values output is the witness)",
+    "1e-9; square roots / geometric means are never computed but checked through their defining "
+    "equation root^deg ~ pre-root quantity (the implementation's raw_values output is the witness)",
+    "Python calling rules (unexpected keyword -> TypeError before the body, missing attribute -> "
+    "AttributeError while evaluating arguments) as modelled by Wrap.class_call; compared with the "
+    "real classes on every class case",
 ]
 MODELLED = [
     "geometric-mean metrics: horizon weights restricted to positive integers (exponents in Q); the "
     "laws are proved for the product form prod x_i^W_i and the root degree sum W_i",
     "relative_loss: relative_loss_function ranges over mean/median absolute/squared error only",
     "input validation (shape / index checks, y_train before y_true) is not modelled; only valid "
-    "inputs are generated",
+    "inputs are generated (horizon >= 1, len(y_train) > sp, weights >= 0 with positive sum)",
+    "multi-output scaled errors and relative_loss with uniform_average / weights: the value is the "
+    "ratio of the averaged numerator and the averaged (clamped) denominator, as the code and its "
+    "docstring examples do; the docstring sentence 'weighted average of all output errors' "
+    "would be the average of the per-output ratios (observation O1 in notes/C06.md)",
 ]
 NOT_RUNNABLE = []
 
@@ -42,7 +56,9 @@ NOT_RUNNABLE = []
 
 def translate(repo):
     from translator import metricq
-    return metricq.translate(repo)
+    files = metricq.translate(repo)
+    files.update(metricq.translate_classes(repo))
+    return files
 
 
 # name -> (coq name, class name, option names, extra series)
@@ -793,9 +809,10 @@ def shrink(case):
 # model side
 
 
-CASES_HEADER = """From Coq Require Import QArith List Bool ZArith.
-Require Import SkV.C06.Model SkV.C06.Cases.
+CASES_HEADER = """From Coq Require Import QArith List Bool ZArith String.
+Require Import SkV.C06.Model SkV.C06.Wrap SkV.C06.Cases.
 Import ListNotations.
+Open Scope string_scope.
 Open Scope Z_scope.
 """
 
@@ -845,20 +862,56 @@ def _cinputs(case):
                                copt(case["hw"], _cql), _ccols(case))
 
 
+_FACTS = {}
+
+
+def _class_facts():
+    """wrapper facts of _classes.py (main process; None if the extractor fails closed - the
+    harness has then already recorded the broken tie from translate())."""
+    if "v" not in _FACTS:
+        try:
+            from harness import core
+            from translator import metricq
+            _FACTS["v"] = metricq.class_facts(core.REPO)
+        except Exception:
+            _FACTS["v"] = None
+    return _FACTS["v"]
+
+
+def _cclass(case, out):
+    facts = _class_facts()
+    if facts is None or case["cls"] not in facts[0]:
+        return None
+    from translator import metricq
+    w = facts[0][case["cls"]]
+    sig = facts[1][w["func"]]
+    given = [] if (case["proto"] == "bare" or case["needs"] == "none") else [case["needs"]]
+    co, fo = out["cls"], out["func"]
+    if isinstance(co, dict):
+        obs = {"TypeError": "ObsTypeErr", "AttributeError": "ObsAttrErr"}.get(co["err"], "ObsOther")
+    else:
+        obs = "(ObsValue %s)" % cbool(co == fo)
+    return "CClass %s %s %s %s" % (metricq.coq_wrapper(case["cls"], w),
+                                   metricq.coq_fsig(w["func"], sig),
+                                   clist(['"%s"' % g for g in given]), obs)
+
+
 def coq_case(case, out):
     if case["kind"] == "class_opts":
         return None
     if case["kind"] == "class":
-        if not _finite(out["cls"]) or not _finite(out["func"]):
+        if isinstance(out["func"], dict) or case.get("omit_ctor"):
             return None
-        if not _class_has_witness(case):
-            return None
-        return "mkcase %s %s %s" % (_cinputs(case), _cql(out["cls"]), _cql(out["cls"]))
+        cc = _cclass(case, out)
+        if not _finite(out["cls"]) or not _finite(out["func"]) or not _class_has_witness(case):
+            return cc
+        v = "CFunc (mkcase %s %s %s)" % (_cinputs(case), _cql(out["cls"]), _cql(out["cls"]))
+        return v if cc is None else "CPair (%s) (%s)" % (cc, v)
     if not _finite(out["val"]) or not _finite(out.get("raw")):
         return None
     fam = STRUCT[_short(case["metric"])][0]
     wit = out["raw"] if fam == "simple" else out["val"]
-    return "mkcase %s %s %s" % (_cinputs(case), _cql(out["val"]), _cql(wit))
+    return "CFunc (mkcase %s %s %s)" % (_cinputs(case), _cql(out["val"]), _cql(wit))
 
 
 def coq_model_term(case):
@@ -887,3 +940,17 @@ def distribution(cases, results):
         else:
             d["class_opts"] += 1
     return dict(d)
+
+
+def extra_coverage(cases, results, tier):
+    """which classes pass Wrap.wrapper_ok on the regenerated facts (evaluated in Coq)."""
+    try:
+        from harness import core
+        hdr = ("From Coq Require Import String List Bool.\nRequire Import SkV.C06.Wrap "
+               "SkV.C06.GenWrap.\nImport ListNotations.\n")
+        txt = core.eval_term_in_coq(
+            ID, hdr, "map (fun ws => w_class (fst ws)) (filter (fun ws => negb (wrapper_ok (fst ws) "
+                     "(snd ws))) gen_wrappers)")
+    except Exception as e:      # evidence only
+        txt = "not evaluated: %s" % e
+    return {"exhaustive": False, "classes_failing_wrapper_ok": txt}
